@@ -2874,13 +2874,17 @@ impl RawTableInner {
         self.prepare_rehash_in_place();
 
         let mut guard = guard(self, move |self_| {
-            if let Some(drop) = drop {
-                for i in 0..self_.buckets() {
-                    if *self_.ctrl(i) == Tag::DELETED {
-                        self_.set_ctrl(i, Tag::EMPTY);
+            // Elements that were not rehashed yet are still marked DELETED:
+            // they must be removed from the table (and `items` adjusted) even
+            // when the element type has no drop glue (`drop` is `None`),
+            // otherwise `items` would exceed the number of full buckets.
+            for i in 0..self_.buckets() {
+                if *self_.ctrl(i) == Tag::DELETED {
+                    self_.set_ctrl(i, Tag::EMPTY);
+                    if let Some(drop) = drop {
                         drop(self_.bucket_ptr(i, size_of));
-                        self_.items -= 1;
                     }
+                    self_.items -= 1;
                 }
             }
             self_.growth_left = bucket_mask_to_capacity(self_.bucket_mask) - self_.items;
